@@ -258,7 +258,10 @@ pub fn probe(args: &Args) {
     while any.len() < narb {
         let (_k, r) = all.choose(&mut rng).unwrap();
         let base = r.join(".");
-        let s = match rng.gen_range(0..9) {
+        let s = match rng.gen_range(0..11) {
+            // non-ASCII labels to the left of the rule (multi-byte characters shift byte and character offsets apart)
+            9 => format!("{}.{}", ["b\u{fc}cher", "\u{5e02}", "m\u{fc}nchen", "\u{1F600}", "caf\u{e9}-\u{e9}\u{e9}"].choose(&mut rng).unwrap(), base),
+            10 => format!("{}.{}.{}", synth(&mut rng), ["\u{e9}", "\u{5e02}\u{5e02}\u{5e02}", "stra\u{df}e"].choose(&mut rng).unwrap(), base),
             0 => base.to_uppercase(),
             1 => {
                 let (u, _) = idna::domain_to_unicode(&base);
